@@ -15,6 +15,7 @@ structure Obs where
   errors : List Err                   -- SecNode.errors, classes
   log : List Ev
   ioDict : List (String × Name)       -- names given to automatically created communicators (a naming table only)
+  written : List (Name × String × Int) := []   -- (module, parameter, value) of every call of a `write_` method, in order
 deriving Repr
 
 /-! ## the attachment graph of a configuration -/
@@ -77,11 +78,16 @@ def badAttachmentB (cfg : Cfg) (ioDict : List (String × Name)) : Bool :=
   missingB u ioDict || wronglyTypedB u ioDict ||
     !acyclicB (names u) ((declaredEdges u ioDict).filter (fun e => (names u).contains e.2))
 
+/-- a parameter the configuration gets wrong: the value given is not of its datatype, or a value is required
+(`needscfg`) and none is given -/
+def paramWrong (q : PCfg) : Bool :=
+  (q.cfgValue.isSome && q.cfgBad) || (q.needscfg && q.cfgValue.isNone && q.clsValue.isNone)
+
 /-- a configuration nothing is wrong with: attachments fine, no failing hooks, distinct names, every HasIO user has
-a communicator -/
+a communicator, no parameter value that is rejected -/
 def cleanB (cfg : Cfg) (ioDict : List (String × Name)) : Bool :=
   let u := allMods cfg ioDict
-  !badAttachmentB cfg ioDict && u.all (fun c => !c.failEarly && !c.failInit) &&
+  !badAttachmentB cfg ioDict && u.all (fun c => !c.failEarly && !c.failInit && !c.params.any paramWrong) &&
   decide (names u).Nodup &&
   u.all (fun c => c.cls != Cls.hasio || c.atts.any (fun a => a.name == "io" && (targetOf ioDict c a).isSome)) &&
   u.all (fun c => (c.touchEarly ++ c.touchInit).all (fun t => c.atts.any (fun a => a.name == t)))
@@ -109,6 +115,26 @@ def InitOrderOnce (modules : List Name) (log : List Ev) : Prop :=
 instance (ms : List Name) (log : List Ev) : Decidable (InitOrderOnce ms log) := by
   unfold InitOrderOnce; infer_instance
 
+/-- the module a lifecycle hook event belongs to -/
+def hookOf : Ev → Option Name
+  | .early m => some m
+  | .init m => some m
+  | .start m => some m
+  | _ => none
+
+/-- "each module is early-initialised, then initialised, then started, exactly once and in that order" — the part of
+the clause that is demanded of **every** life of a node, also of one that is rejected (failing early / late
+initialisation, bad attachments, cycles): no hook of any module runs a second time, however often the module is reached
+(through the attachments of several users, the creation loop, the description of the exported modules), `earlyInit`
+comes first and `initModule` is never entered without it. -/
+def HooksAtMostOnce (log : List Ev) : Prop :=
+  ∀ e ∈ log, ∀ m ∈ (hookOf e).toList,
+    log.count (.early m) ≤ 1 ∧ log.count (.init m) ≤ 1 ∧ log.count (.start m) ≤ 1 ∧
+    (Ev.init m ∈ log → Ev.early m ∈ log) ∧ NeverAfter (· == .init m) (· == .early m) log
+
+instance (log : List Ev) : Decidable (HooksAtMostOnce log) := by
+  unfold HooksAtMostOnce; infer_instance
+
 /-- "a module reached through an attachment is fully initialised before its user sees it" -/
 def gotten : Ev → Option Name
   | .get _ _ d => some d
@@ -129,13 +155,36 @@ def NoHalfStart (o : Obs) : Prop := o.errors ≠ [] → ∀ e ∈ o.log, isStart
 
 instance (o : Obs) : Decidable (NoHalfStart o) := by unfold NoHalfStart; infer_instance
 
+/-- the configured start value of a parameter (frappy/params.py, "Usage of 'value' and 'default'"): the `value` given
+in the configuration, else the `value` argument of the parameter's declaration ("if a value should be written to the HW
+on startup, even when not given in the config").  A `default` — declared or configured — is not a start value ("assigned
+to the parameter but not written to the HW"), and whether the start value happens to be equal to a default is of no
+concern. -/
+def startValue (q : PCfg) : Option Int :=
+  match q.cfgValue with
+  | some v => some v
+  | none => q.clsValue
+
+/-- the parameters of a module that have a configured start value and can be written (a `write_` method exists) -/
+def startParams (c : ModCfg) : List String :=
+  (c.params.filter (fun q => q.hasWrite && (startValue q).isSome)).map (·.name)
+
 /-- "configured start values are written before the first poll" (and once) -/
 def WritesBeforeFirstPoll (u : List ModCfg) (log : List Ev) : Prop :=
-  ∀ c ∈ u, ∀ p ∈ c.writes,
+  ∀ c ∈ u, ∀ p ∈ startParams c,
     log.count (.write c.name p) = 1 ∧ NeverAfter (· == .firstpoll c.name) (· == .write c.name p) log
 
 instance (u : List ModCfg) (log : List Ev) : Decidable (WritesBeforeFirstPoll u log) := by
   unfold WritesBeforeFirstPoll; infer_instance
+
+/-- "configured start values are written": what a `write_` method of a module is handed at start-up is the configured
+start value of that parameter — never a default, a stale or a converted-away value -/
+def StartValuesHandedOver (u : List ModCfg) (written : List (Name × String × Int)) : Prop :=
+  ∀ c ∈ u, ∀ q ∈ c.params, q.hasWrite = true → ∀ v ∈ (startValue q).toList,
+    ∀ w ∈ written, w.1 = c.name → w.2.1 = q.name → w.2.2 = v
+
+instance (u : List ModCfg) (written : List (Name × String × Int)) : Decidable (StartValuesHandedOver u written) := by
+  unfold StartValuesHandedOver; infer_instance
 
 def isThread : Ev → Option Name
   | .thread t => some t
@@ -219,11 +268,14 @@ def judge (cfg : Cfg) (o : Obs) : List String :=
   let up := o.errors.isEmpty
   (if cleanB cfg o.ioDict && !(up && decide (∀ n ∈ names u, n ∈ o.modules) && decide (InitOrderOnce o.modules o.log))
      then ["init_order_once"] else []) ++
+  (if decide (HooksAtMostOnce o.log) then [] else ["init_at_most_once"]) ++
   (if decide (AttachedReady o.log) then [] else ["attached_ready"]) ++
   (if badAttachmentB cfg o.ioDict && up then ["bad_attachment_reported"] else []) ++
   (if decide (NoHalfStart o) then [] else ["no_half_start"]) ++
   (if up && !decide (WritesBeforeFirstPoll (u.filter (fun c => o.modules.contains c.name)) o.log)
      then ["writes_before_first_poll"] else []) ++
+  (if up && !decide (StartValuesHandedOver (u.filter (fun c => o.modules.contains c.name)) o.written)
+     then ["start_values_handed_over"] else []) ++
   (if decide (ReadyAfterFirstRound o.log) && decide (RoundComplete u o.ioDict o.log) then []
      else ["ready_after_first_round"]) ++
   (if up && !decide (ShutdownOrder o.modules edges o.log) then ["shutdown_order"] else []) ++
